@@ -386,7 +386,105 @@ def dead_peer_case(case):
     return None
 
 
+def wrapper_ids_case(case):
+    """the convenience wrapper pynetdicom2.c_find called several times in each of several threads against one real AE; a
+    spy in front of the find provider records the message id of every C-FIND request per calling thread: the ids one
+    thread used must be pairwise distinct"""
+    import pydicom
+    import pynetdicom2
+    from pynetdicom2 import applicationentity as aem, sopclass as sc
+    seen = {}
+    lock = threading.Lock()
+
+    def spy(asce, ctx, msg):
+        who = asce.remote_ae
+        who = (who.decode('ascii', 'replace') if isinstance(who, bytes) else str(who)).strip()
+        with lock:
+            seen.setdefault(who, []).append(int(msg.message_id))
+        return sc.qr_find_scp(asce, ctx, msg)
+    spy.sop_classes = list(sc.qr_find_scp.sop_classes)
+
+    class Srv(aem.AE):
+        def on_receive_find(self, context, ds):
+            return iter(())
+    srv = Srv('SRV', 0)
+    srv.timeout = 10
+    srv.add_scp(spy)
+    port = srv.server_address[1]
+    errs = []
+
+    def body(i):
+        try:
+            for _ in range(case['calls']):
+                q = pydicom.Dataset(); q.PatientID = 'T%d' % i; q.QueryRetrieveLevel = 'PATIENT'
+                list(pynetdicom2.c_find({'aet': 'SRV', 'address': '127.0.0.1', 'port': port}, 'WRAP%d' % i, q))
+        except BaseException as e:  # pylint: disable=broad-except
+            errs.append('thread %d: c_find() raised %r' % (i, e))
+    with srv:
+        ths = [threading.Thread(target=body, args=(i,), daemon=True) for i in range(case['threads'])]
+        for t in ths:
+            t.start()
+        for t in ths:
+            t.join(60)
+        if any(t.is_alive() for t in ths):
+            return 'c_find() calls did not finish within 60 s'
+    if errs:
+        return errs[0]
+    for i in range(case['threads']):
+        ids = seen.get('WRAP%d' % i, [])
+        if len(ids) != case['calls']:
+            return 'thread %d made %d c_find() calls, the provider saw %d requests' % (i, case['calls'], len(ids))
+        if len(set(ids)) != len(ids):
+            return 'thread %d: consecutive c_find() calls used message ids %r - not unique within the thread' % (i, ids)
+    return None
+
+
+def silent_peer_case(case):
+    """one accepting entity, two connections: one peer connects and says nothing, the other runs a whole association
+    meanwhile; the silent connection must still be dropped when its own ARTIM period (10 s) is over"""
+    import socket
+    from pynetdicom2 import applicationentity as aem, sopclass as sc
+    srv, _ = build_server(16384)
+    srv.timeout = 60                     # the entity's own patience is longer than ARTIM: only ARTIM can drop the connection in time
+    port = srv.server_address[1]
+    errs = {}
+    with srv:
+        silent = socket.create_connection(('127.0.0.1', port), timeout=5)
+        t0 = time.time()
+        time.sleep(0.5)
+        for k in range(case['busy']):
+            try:
+                cli = aem.ClientAE('BUSY%d' % k).add_scu(sc.verification_scu)
+                cli.timeout = 10
+                with cli.request_association({'aet': 'SRV', 'address': '127.0.0.1', 'port': port}) as assoc:
+                    st = assoc.get_scu(sc.VERIFICATION_SOP_CLASS)(1)
+                    if int(st) != 0:
+                        errs[k] = 'echo status %r' % int(st)
+            except BaseException as e:  # pylint: disable=broad-except
+                errs[k] = e
+            time.sleep(0.3)
+        silent.settimeout(max(1.0, case['wait'] - (time.time() - t0)))
+        try:
+            data = silent.recv(64)
+            took = time.time() - t0
+            verdict = None if data == b'' or data[:1] == b'\x07' else 'the silent connection received %r' % data[:16]
+        except socket.timeout:
+            verdict = ('a connection whose peer never spoke was still open %d s after it was made (%d other associations of the '
+                       'same entity ran meanwhile): it was not dropped when its ARTIM period (10 s) was over' % (case['wait'], case['busy']))
+        except OSError:
+            verdict = None               # reset: dropped
+        silent.close()
+    if errs:
+        k = sorted(errs)[0]
+        return 'busy association %d failed: %r' % (k, errs[k])
+    return verdict
+
+
 def replay(case):
+    if case.get('wrapper_ids'):
+        return wrapper_ids_case(case)
+    if case.get('silent_peer'):
+        return silent_peer_case(case)
     if case.get('encode_soak'):
         p = encode_soak(case['threads'], case['rounds'])
         return '; '.join(p[:3]) or None
@@ -469,6 +567,18 @@ def run(chk):
     chk.count('dead-peer')
     if r and dead_peer_case(dp):             # a timing verdict on real threads counts only if it reproduces
         chk.violation('C20:dead-peer', r, dp)
+    wi = {'wrapper_ids': True, 'threads': 4, 'calls': 3}
+    r = wrapper_ids_case(wi)
+    chk.case('wrapper-ids', True, {'wrapper_ids': '4 threads x 3 c_find() calls, ids seen by the provider'})
+    chk.count('wrapper-ids')
+    if r and (not common.timing_verdict(r) or (wrapper_ids_case(wi) and wrapper_ids_case(wi))):
+        chk.violation('C20:wrapper-ids', r, wi)
+    sp = {'silent_peer': True, 'busy': 3, 'wait': 16}
+    r = silent_peer_case(sp)
+    chk.case('silent-peer', True, {'silent_peer': 'one entity: a silent connection while 3 associations run'})
+    chk.count('silent-peer')
+    if r and (not common.timing_verdict(r) or (silent_peer_case(sp) and silent_peer_case(sp))):
+        chk.violation('C20:silent-peer', r, sp)
     rounds = [(4, 3), (16, 2), (32, 1)] if tier == 'quick' else [(4, 10), (16, 10), (32, 5), (48, 3)]
     seed = 0
     for n, reps in rounds:
